@@ -3,6 +3,7 @@
 #include <yaclib/fault/detail/fiber/fiber.hpp>
 #include <yaclib/fault/detail/fiber/queue.hpp>
 #include <yaclib/fault/detail/fiber/scheduler.hpp>
+#include <yaclib/fault/inject.hpp>
 #include <yaclib/log.hpp>
 
 #include <functional>
@@ -20,6 +21,7 @@ class Thread {
 
   template <typename... Args>
   explicit Thread(Args&&... args) : _impl{new Fiber<Args...>(std::forward<Args>(args)...)} {
+    YACLIB_VERIF_SYNC(7, _impl, static_cast<unsigned long long>(_impl->GetId()));
     fault::Scheduler::GetScheduler()->Schedule(_impl);
   }
 
